@@ -479,6 +479,20 @@ static void fog_case(Report & rep, Rng & r, int no, int ny, int nx)
         for (int j = 0; j < ny; ++j) s += JfD(i, j) * HgD(a, j * nx + b);
         ref(a, i * nx + b) = s;
       }
+  // magnitude of the terms that make up the result (floor of the relative error: an entry that is zero or
+  // cancels mathematically is compared on the scale of its terms, not of the stencil's rounding noise)
+  L scale = 0;
+  for (int i = 0; i < no; ++i) {
+    scale = std::max(scale, fabsl(hfun(x, i)));
+    for (int a = 0; a < nx; ++a)
+      for (int b = 0; b < nx; ++b) {
+        L s = 0;
+        for (int pp = 0; pp < ny; ++pp)
+          for (int qq = 0; qq < ny; ++qq) s += fabsl(JgD(pp, a) * HfD(pp, i * ny + qq) * JgD(qq, b));
+        for (int j = 0; j < ny; ++j) s += fabsl(JfD(i, j) * HgD(a, j * nx + b));
+        scale = std::max(scale, s);
+      }
+  }
   // reference 2: exact second differences of the quartic h_i (5-point stencil is exact up to degree 5)
   Mat ref2(nx, no * nx);
   const L hh = 0.125L;
@@ -495,8 +509,14 @@ static void fog_case(Report & rep, Rng & r, int no, int ny, int nx)
                        + ",ny=" + std::to_string(ny) + ",nx=" + std::to_string(nx);
   auto det = [&]() { return JObj().integer("no", no).integer("ny", ny).integer("nx", nx).raw("x", hexv(x)).done(); };
   rep.note_input(Report::hash_vec(x, Report::hash_vec(y)), true);
-  rep.judge("d2_fog.definition", st, orc::err_relmax(got, ref), 1e-12L, det);
-  rep.judge("d2_fog.end_to_end", st, orc::err_relmax(got, ref2), 1e-10L, det);
+  {
+    const L den = std::max({L(ref.cwiseAbs().maxCoeff()), scale, 1e-300L});
+    rep.judge("d2_fog.definition", st, (got - ref).cwiseAbs().maxCoeff() / den, 1e-12L, det);
+  }
+  {
+    const L den = std::max({L(ref2.cwiseAbs().maxCoeff()), scale, 1e-300L});
+    rep.judge("d2_fog.end_to_end", st, (got - ref2).cwiseAbs().maxCoeff() / den, 1e-10L, det);
+  }
 }
 
 [[maybe_unused]] static void run_c05_generic(Report & rep)
